@@ -85,7 +85,11 @@ fn('dsplib::isprime', TU, serves=['C15', 'C05'], extra_env=ENV, pure=True, nowra
    body_assumes=['DIV_LEMMAS()'],
    ensures=[('small', 'Implies(n < 2, Not(result))'),
             ('table_exact', 'Implies(n <= 251, result == Or(%s))' % ', '.join('n == %d' % v for v in PRIMES54)),
-            ('composite_witness', 'Implies(And(Not(result), n > 251), exists(lambda q, r: And(1 < q, q < n, n == q * r)))')],
+            ('composite_witness', 'Implies(And(Not(result), n > 251), exists(lambda q, r: And(1 < q, q < n, n == q * r)))'),
+            # a 'prime' answer above the table means: trial division by the generator's list reached sqrt(n)
+            # (first entry d with d > n/d) and no earlier entry divides n  [+ L-TRIAL and list = all primes]
+            ('prime_answer', 'when(And(result, n > 251), lambda: exists_w(lambda L, pos: And(0 <= pos, pos < L.len, L[pos] > tdiv(n, L[pos]), '
+                             'forall(lambda i: Implies(And(0 <= i, i < pos), n - L[i] * tdiv(n, L[i]) != 0))), gen._primes, gen._pos))')],
    loops={1: {'inv': [('gen', 'gen_ok(gen)'), ('cur', 'd == gen._primes[gen._pos]'), ('big', 'n > 251'),
                       ('shape', 'Or(And(gen._primes.len == 54, gen._primes[53] == 251), gen._pos == gen._primes.len - 1)'),
                       ('visited', 'no_listed_divisor(gen._primes, gen._pos, n)')],
